@@ -67,11 +67,17 @@ pub struct Outcome {
     pub class: String,
     /// extra counters merged (summed) into the evidence
     pub counters: Vec<(&'static str, u64)>,
+    /// hash of the normalised result trace (differential comparison across builds)
+    pub trace_hash: Option<u64>,
 }
 
 impl Outcome {
     pub fn new(nontrivial: bool, class: impl Into<String>) -> Outcome {
-        Outcome { nontrivial, class: class.into(), counters: vec![] }
+        Outcome { nontrivial, class: class.into(), counters: vec![], trace_hash: None }
+    }
+    pub fn trace(mut self, h: u64) -> Outcome {
+        self.trace_hash = Some(h);
+        self
     }
     pub fn with(mut self, k: &'static str, v: u64) -> Outcome {
         self.counters.push((k, v));
@@ -123,6 +129,8 @@ pub trait Prop {
     const ID: &'static str;
     /// whether failures may depend on the OS schedule (replay repeats the case)
     const SCHEDULE_DEPENDENT: bool = false;
+    /// generate the same cases on every build flavour (differential properties)
+    const SAME_CASES_ACROSS_BUILDS: bool = false;
     fn strategy(ctx: &Ctx) -> BoxedStrategy<Self::Case>;
     /// total generated cases for this job (all shards together)
     fn cases(ctx: &Ctx) -> u32;
@@ -168,6 +176,7 @@ struct Acc {
     inconclusive: Vec<String>,
     failed: bool,
     poisoned: bool,
+    pairs: Vec<(u64, u64)>,
 }
 
 fn truncate_json(v: Value) -> Value {
@@ -221,6 +230,10 @@ fn record_pass<C: Serialize>(acc: &mut Acc, case: &C, o: &Outcome) {
     for (k, v) in &o.counters {
         *acc.counters.entry((*k).to_string()).or_insert(0) += v;
     }
+    if let Some(t) = o.trace_hash {
+        let js = serde_json::to_vec(case).unwrap_or_default();
+        acc.pairs.push((fnv64(&js), t));
+    }
     if o.nontrivial {
         let js = serde_json::to_vec(case).unwrap_or_default();
         let h = fnv64(&js);
@@ -261,6 +274,14 @@ fn run_one<P: Prop>(
     acc: &RefCell<Acc>,
     case: &P::Case,
 ) -> Result<(), Failure> {
+    if let Ok(want) = std::env::var("IPCV_FIND") {
+        let js = serde_json::to_vec(case).unwrap_or_default();
+        if format!("{:016x}", fnv64(&js)) == want {
+            let f = Failure::new("found", "case located by hash (IPCV_FIND)");
+            let p = write_replay(ctx, P::ID, case, &f, false);
+            eprintln!("IPCV_FIND: wrote {}", p);
+        }
+    }
     match P::exec(ctx, case) {
         Ok(o) => {
             let mut a = acc.borrow_mut();
@@ -374,7 +395,7 @@ pub fn run<P: Prop>(ctx: &Ctx) -> i32 {
     let total = P::cases(ctx);
     if !stop && total > 0 && !acc.borrow().poisoned {
         let cases = ctx.share(total);
-        let seed = mix(mix(mix(ctx.seed, fnv64(P::ID.as_bytes())), fnv64(BUILD.as_bytes())), mix(ctx.shard as u64, fnv64(format!("{:?}", ctx.params).as_bytes())));
+        let seed = mix(mix(mix(ctx.seed, fnv64(P::ID.as_bytes())), if P::SAME_CASES_ACROSS_BUILDS { 0 } else { fnv64(BUILD.as_bytes()) }), mix(ctx.shard as u64, fnv64(format!("{:?}", ctx.params).as_bytes())));
         let config = Config {
             cases,
             rng_seed: RngSeed::Fixed(seed),
@@ -458,6 +479,7 @@ pub fn run<P: Prop>(ctx: &Ctx) -> i32 {
         "samples": samples,
         "known": a.known.iter().map(|(k, (n, w))| json!({"signature": k, "count": n, "what": w})).collect::<Vec<_>>(),
         "violations": a.violations,
+        "pairs": a.pairs.iter().map(|(c, t)| format!("{:016x}:{:016x}", c, t)).collect::<Vec<_>>(),
         "inconclusive": a.inconclusive,
         "wall_s": t0.elapsed().as_secs_f64(),
     });
